@@ -226,6 +226,9 @@ func (r *runner) do(c Case) outcome {
 		return o
 	}
 	r.perEP[c.EP]++
+	if r.perEP[c.EP] == 3 && len(c.Args) > 0 { // a few actual cases for the evidence (lib keeps the first 8)
+		r.res.Sample(map[string]any{"case": c, "outcome": o.Class})
+	}
 	r.res.Hit("ep:" + c.EP + ":" + o.Class)
 	if o.Dur > r.slow[c.EP] {
 		r.slow[c.EP] = o.Dur
